@@ -209,3 +209,24 @@ Proof.
     destruct (Hentry id (S (length tbl)) Hid) as (v & Rv & Uv & Iv). fold FUEL in Rv.
     unfold F. cbn [fst snd]. rewrite Hq, Rv. cbn [fst]. exact Iv.
 Qed.
+
+(* ------------------------------------------------------------------ what the theorem says and what it leaves open
+   rd_reads_writer_output: for every wf_doc d with
+     rw_doc_okb d      (every written object is found and is an array/dictionary - or a stream whose dictionary is - of the
+                        bridge's class: no real numbers, byte strings, names without NUL, printed keys pairwise different,
+                        integers within long long, new numbers <= 2^31-1, <= 500 container openings, < 2^32-1 tokens; the
+                        same for the trailer with /Size and /ID),
+     rw_sx_onceb d     ("startxref" starts nowhere else in the last 1054 bytes of the output),
+     rw_catalog_ok d   (/Root is a non-stream dictionary with /Type /Catalog and /Pages a reference to a non-stream dictionary),
+     fewer than 2^31-1 objects, an output shorter than 10^10 bytes, no /Encrypt in the trailer,
+   the reader model returns RdDoc v (not RdOutside, not RdFatal) with: the document's version, shift 0, NO warning, the table
+   of objects 1..n at the recorded offsets, the trailer related by R_obj to the written trailer (entries, /Size = n+1,
+   /ID [id1 id2]), and - in the order of the new numbers - one item per written object: its new number, generation 0, its
+   value related by R_obj to the document's value under the renumbering (null entries dropped, as the writer drops
+   them), and for a stream exactly the document's stream bytes.
+   Read values appear as rd_fixrefs known o' (known = "the reference is in the table"): that rd_fixrefs is the identity here
+   (every reference of a closed document points to a written object) is NOT proved - it needs an induction over R_obj / R_dict
+   through Forall2 and map_put.  Reals remain excluded (side condition).  rw_catalog_ok is a Prop with existential
+   witnesses, not a boolean.  Together with write_read_strict_lemma (Obj/C01FileProofs.v: the strict ISO reader reads
+   write_doc d back as d) this gives, at model level, for the plain mode: what the writer model writes, both the strict reader
+   and the model of qpdf's reader read back. *)
